@@ -225,6 +225,28 @@ def run(ctx):
                   "vote cleared without a term advance in the same step: reset_voted_for is not dominated by increase_current_term/update_current_term "
                   "(same-term step-down lets the node vote twice in one term)", loc(b, bi))
 
+    # ---------------------------------------------------------------- C01-f' every `request.term > my_term` branch of the leader steps down
+    lf = ctx.anchor(F.method, "LeaderState", "handle_inbound_event")
+    if lf:
+        mb = F.main_body(lf)
+        conds = edge_conditions(mb)
+        sbf = [bi for bi, _ in calls_matching(mb, r"LeaderState::send_become_follower_event$")]
+        edges = []
+        for eid, c in conds.items():
+            for (adt, what) in (("VoteRequest", "vote"), ("AppendEntriesRequest", "append"), ("ClusterConfChangeRequest", "confupdate")):
+                rel = cmp_rel(F, c, lambda s, adt=adt: s.has_field(adt, "term"), lambda s: s.has_call(r"::current_term$"))
+                if rel == ">":
+                    edges.append((c, what))
+        ctx.floor("C01-f", len(edges), 3, "`request.term > my_term` branches in LeaderState::handle_inbound_event")
+        for (c, what) in edges:
+            start = c.edge["dst"]
+            wit = must_pass(mb, start, [], sbf, treat_exit_as_goal=True) if start not in sbf else None
+            if wit and any(mb.term(x)["k"] == "call" and "from_residual" in (callee_key(mb.term(x)) or "") for x in wit):
+                wit = None
+            ctx.check("C01-f", "%s#higher-term-%s-request" % (fkey(lf), what), wit is None,
+                      "a leader that sees a higher term in a %s request sends BecomeFollower on every non-error path" % what,
+                      "leader sees a higher term in a %s request and can return without stepping down" % what, loc(mb, start), wit and bpath(mb, wit))
+
     # ---------------------------------------------------------------- C01-f leader yields to a higher term
     for fname in ("handle_inbound_event", "handle_append_result"):
         lf = ctx.anchor(F.method, "LeaderState", fname)
